@@ -392,10 +392,18 @@ class Env:
         self.policy = self.rng.choice(POLICIES)
         self.cfg = D.make_cfg(sym, False, tensordot_policy=self.policy)
         self.big = ctx.tier == "thorough"
+        self.tight = sym != "dense" and self.rng.random() < 0.4
+        self.box = list(itertools.product(*(((0, 1, 2) if m == 3 else (0, 1)) for m in G.MODULI[sym])))
+        if self.tight:
+            ctx.count("cases_with_tight_charge_box")
         self.states, self.info, self.operands = [], {}, []
         self._desc = (None, None)
 
     def leg(self, s=None, small=False):
+        if self.tight:
+            # few distinct charges: many sector combinations fuse to the same effective charge (degenerate fused sectors,
+            # inner charges present in one operand only while all their constituents are present in both)
+            return D.gen_leg(self.rng, self.sym, s=s, nsec=(2, 2) if small else (2, 3), dmax=2, box=self.box)
         return D.gen_leg(self.rng, self.sym, s=s, nsec=(1, 2) if small else (1, 3), dmax=2 if small else 3)
 
     def real(self, ht, state=None):
@@ -773,10 +781,10 @@ def case_block(E):
     import yastn
     ctx, rng = E.ctx, E.rng
     sub = rng.choice(("plain", "plain", "fused-pieces", "fuse-blocked", "trace"))
-    nb = 2 if sub == "trace" else (1 if sub == "fused-pieces" else rng.choice((1, 1, 2)))
+    nb = 2 if sub == "trace" else rng.choice((1, 1, 2))
     nc = rng.randint(0, 2) if nb == 1 else rng.randint(0, 1)
-    if sub == "fused-pieces" and nb + nc < 2:
-        nc = 1
+    if sub == "fused-pieces" and nc == 0:
+        nc = rng.randint(1, 2) if nb == 1 else 1
     if sub == "fuse-blocked" and nb + nc < 2:
         nc = 1
     npos = [rng.randint(2, 3) for _ in range(nb)]
@@ -832,7 +840,13 @@ def case_block(E):
     trees = list(range(rank))
     target, kind = ("all-p", None), kind_fn(("all-p", None))
     if sub == "fused-pieces":
-        trees = gen_trees(rng, range(rank), 1)
+        # a fused group holds at most one blocked leg (two would need one combined position index per pair of positions)
+        for _ in range(20):
+            trees = gen_trees(rng, range(rank), 1)
+            if all(sum(x in bpos for x in leaves(T)) <= 1 for T in trees):
+                break
+        else:
+            trees = list(range(rank))
         E.info["piece_trees"] = repr(trees)
 
     def build(F, tag):
